@@ -284,6 +284,24 @@ func (c *WireCase) encode3(w *TraceWriter) []byte {
 		}
 		emit("stream", all, wl)
 	}()
+	// stream writer over a zero-copy writer that reads what it was given only at Flush
+	func() {
+		defer func() {
+			if p := recover(); p != nil {
+				w.Ev("enc", "api", "stream-ref", "kind", c.Kind, "val", val, "out", Raw(`[{"g":[0,0]}]`), "ret", -1, "adv", adv, "panic", fmt.Sprint(p))
+			}
+		}()
+		rw := &refWriter{}
+		tw := thrift.NewBufferWriter(rw)
+		err := stream(tw)
+		wl := rw.WrittenLen()
+		ferr := rw.Flush()
+		tw.Recycle()
+		if err != nil || ferr != nil {
+			wl = -1
+		}
+		emit("stream-ref", rw.out, wl)
+	}()
 	// stream writer over a writer that runs out of room after `budget` bytes
 	seenB := map[int]bool{}
 	for _, budget := range []int{0, 1, 3, adv / 2, adv - 1, adv, adv + 5} {
@@ -606,3 +624,35 @@ func (b *budgetWriter) WriteBinary(bs []byte) (int, error) {
 }
 func (b *budgetWriter) WrittenLen() int { return b.used }
 func (b *budgetWriter) Flush() error    { return nil }
+
+// refWriter is a bufiox.Writer that takes WriteBinary at its word ("it may be a zero copy write ... bs is not being
+// written before calling Flush"): it keeps the caller's slice BY REFERENCE and reads it only at Flush, like a vectored
+// connection writer.  Code that reuses a scratch buffer between WriteBinary and Flush shows up as a wrong stream.
+type refWriter struct {
+	pieces [][]byte
+	n      int
+	out    []byte
+}
+
+func (r *refWriter) Malloc(n int) ([]byte, error) {
+	if n < 0 {
+		return nil, errors.New("verif: negative count")
+	}
+	b := make([]byte, n)
+	r.pieces = append(r.pieces, b)
+	r.n += n
+	return b, nil
+}
+func (r *refWriter) WriteBinary(bs []byte) (int, error) {
+	r.pieces = append(r.pieces, bs) // no copy
+	r.n += len(bs)
+	return len(bs), nil
+}
+func (r *refWriter) WrittenLen() int { return r.n }
+func (r *refWriter) Flush() error {
+	for _, p := range r.pieces {
+		r.out = append(r.out, p...)
+	}
+	r.pieces, r.n = nil, 0
+	return nil
+}
